@@ -115,6 +115,18 @@ class _Linalg(types.ModuleType):
         return out
 
     @staticmethod
+    def eigvalsh(a, UPLO="L"):
+        if not has_sym(a):
+            return _np.linalg.eigvalsh(a, UPLO)
+        return _eig_stub(a, vectors=False)
+
+    @staticmethod
+    def eigh(a, UPLO="L"):
+        if not has_sym(a):
+            return _np.linalg.eigh(a, UPLO)
+        return _eig_stub(a, vectors=True)
+
+    @staticmethod
     def norm(x, ord=None, axis=None, keepdims=False):
         if not has_sym(x):
             return _np.linalg.norm(x, ord=ord, axis=axis, keepdims=keepdims)
@@ -125,6 +137,33 @@ class _Linalg(types.ModuleType):
         if isinstance(s, Sym):
             return s.sqrt()
         return _np.sqrt(s)
+
+
+EIG_LOG = []
+
+
+def _eig_stub(a, vectors):
+    """contract stub for LAPACK's symmetric eigen-solvers on symbolic input: fresh symbols for the eigenvalues
+    (ascending order is NOT assumed) and eigenvectors; every call is recorded with its argument"""
+    a = _np.asarray(a, dtype=object)
+    k = len(EIG_LOG)
+    lead = a.shape[:-2]
+    n = a.shape[-1]
+    w = _np.empty(lead + (n,), dtype=object)
+    for i in _np.ndindex(*w.shape):
+        w[i] = S.var("__eigval%d%s" % (k, "".join("_%d" % j for j in i)))
+    rec = {"a": a.copy(), "w": w}
+    if vectors:
+        v = _np.empty(lead + (n, n), dtype=object)
+        for i in _np.ndindex(*v.shape):
+            v[i] = S.var("__eigvec%d%s" % (k, "".join("_%d" % j for j in i)))
+        rec["v"] = v
+    EIG_LOG.append(rec)
+    if vectors:
+        import collections
+
+        return collections.namedtuple("EighResult", ["eigenvalues", "eigenvectors"])(w, rec["v"])
+    return w
 
 
 def _det(a):
@@ -445,6 +484,8 @@ def _default_replacements():
     register_replacement(_np.linalg.solve, PROXY.linalg.solve)
     register_replacement(_np.linalg.det, PROXY.linalg.det)
     register_replacement(_np.isnan, PROXY.isnan)
+    register_replacement(_np.linalg.eigvalsh, PROXY.linalg.eigvalsh)
+    register_replacement(_np.linalg.eigh, PROXY.linalg.eigh)
     from . import spstub
 
     spstub.register(register_replacement)
